@@ -1302,9 +1302,9 @@ def oracle_search(ctx, corr, broken):
     r = Rng(ctx.seed).fork("c01-search")
 
     def candidates():
-        for d in corr.disagreements[:100]:
-            if isinstance(d.get("case"), dict) and "fns" in d["case"]:
-                yield prog_from_json(d["case"])
+        seen_cases = [d["case"] for d in corr.disagreements[:300] if isinstance(d.get("case"), dict) and "fns" in d["case"]]
+        for cs in sorted(seen_cases, key=lambda cs_: len(json.dumps(cs_)))[:100]:      # smallest programs first
+            yield prog_from_json(cs)
         for p in boundary_programs():
             yield p
         k = 0
